@@ -39,4 +39,20 @@ def getNamespace (w : World) (name : String) : List (String × String) × Option
 /-- `selector.Matches(labels.Set(ns.Labels))` -/
 def matches' (selector : List Term) (ls : List (String × String)) : Bool := selector.all (termMatch ls)
 
+/-! ### `syncRoute` -/
+
+/-- `p != nil && *p != ""` on an optional group / kind / namespace of a parentRef -/
+def nonEmpty (o : Option String) : Bool :=
+  match o with
+  | some s => s != ""
+  | none => false
+
+/-- `err := syncGateway(gatewaySource, parentRef.SectionName)`: the callback (`syncHTTPRouteGateway`, ...) as a step of
+a trace — which gateway, which section name —; its error (`errOf`, any function) is only logged by `syncRoute` -/
+def callSync (errOf : Gateway → Option String → Option String) (fx : List (Gateway × Option String))
+    (g : Option Gateway) (sect : Option String) : Option String × List (Gateway × Option String) :=
+  match g with
+  | some g => (errOf g sect, fx ++ [(g, sect)])
+  | none => (none, fx)
+
 end HapVerif.C10Views
